@@ -133,6 +133,11 @@ func (e *Engine) escapeCheck(st *state, fr *frame, in ssa.Instruction, what stri
 
 func (e *Engine) invoke(st *state, fr *frame, in ssa.CallInstruction, recv *Val, args []*Val, c *ssa.CallCommon) []callRes {
 	name := c.Method.Name()
+	// the read side of a RWMutex handed on as a sync.Locker (mu.RLocker())
+	if rl := stripIface(recv); rl != nil && rl.Op == "rlocker" && len(rl.Args) == 1 && (name == "Lock" || name == "Unlock") {
+		e.addEvent(st, fr, &Event{Kind: EvLock, Mode: "R" + name, Recv: rl.Args[0]}, in)
+		return one(st, nil)
+	}
 	// resolve through a known dynamic type
 	if recv.Op == "iface" {
 		inner := recv.Args[0]
@@ -247,6 +252,18 @@ func (e *Engine) builtin(st *state, fr *frame, in ssa.CallInstruction, name stri
 		rt = v.Type()
 	}
 	switch name {
+	case "Sizeof":
+		// unsafe.Sizeof of a value of a fixed-size number type (a type argument in an instantiation): its width; in a
+		// generic body, the same symbolic width as binary.Size of such a value
+		if len(c.Args) == 1 {
+			t := fr.substT(c.Args[0].Type())
+			if sz, ok := fixedSize(t); ok && sz > 0 {
+				return one(st, mkConst(constant.MakeInt64(sz), rt))
+			}
+			if _, isTP := t.(*types.TypeParam); isTP && numberTypeSet(t) {
+				return one(st, &Val{Op: "conv", Name: "convert", Args: []*Val{{Op: "call", Name: "encoding/binary.Size", Args: []*Val{{Op: "iface", Args: []*Val{args[0]}, Type: t}}, Type: types.Typ[types.Int]}}, Type: rt})
+			}
+		}
 	case "len":
 		if _, isMap := c.Args[0].Type().Underlying().(*types.Map); isMap {
 			e.addEvent(st, fr, &Event{Kind: EvMapRead, Mode: "len", Recv: args[0]}, in)
@@ -1323,6 +1340,10 @@ func (e *Engine) model(st *state, fr *frame, in ssa.CallInstruction, fn *ssa.Fun
 		return one(st, e.opaqueResult(fn, name, args, ev.ID)), true
 	}
 	// mutexes
+	if name == "(*sync.RWMutex).RLocker" && len(args) == 1 {
+		// a Locker whose Lock/Unlock are the mutex's RLock/RUnlock
+		return one(st, &Val{Op: "rlocker", Args: []*Val{args[0]}, Type: fn.Signature.Results().At(0).Type()}), true
+	}
 	switch name {
 	case "(*sync.RWMutex).Lock", "(*sync.RWMutex).Unlock", "(*sync.RWMutex).RLock", "(*sync.RWMutex).RUnlock",
 		"(*sync.Mutex).Lock", "(*sync.Mutex).Unlock", "(*sync.RWMutex).TryLock", "(*sync.RWMutex).TryRLock", "(*sync.Mutex).TryLock":
@@ -1521,6 +1542,22 @@ func (e *Engine) model(st *state, fr *frame, in ssa.CallInstruction, fn *ssa.Fun
 		case "strings.Repeat":
 			e.addEvent(st, fr, &Event{Kind: EvAlloc, Mode: "strings.Repeat", Src: args[1], Args: []*Val{args[1]}}, in)
 			e.addEvent(st, fr, &Event{Kind: EvPanicSite, Mode: "repeat-count", Args: []*Val{args[1]}}, in)
+			// a one-byte string repeated: the same bytes as bytes.Repeat of that byte
+			var one1 *Val
+			if s0 := stripCT(cargs[0]); s0 != nil {
+				if s0.IsConst() && s0.C != nil && s0.C.Kind() == constant.String && len(constant.StringVal(s0.C)) == 1 {
+					one1 = mkConst(constant.MakeInt64(int64(constant.StringVal(s0.C)[0])), types.Typ[types.Uint8])
+				} else if s0.Op == "conv" && len(s0.Args) == 1 && isStringOrBytes(s0.Type) {
+					if lit := stripCT(s0.Args[0]); lit != nil && lit.Op == "arraylit" && len(lit.Args) == 1 && lit.Args[0] != nil && lit.Args[0].Type != nil {
+						if bt, isB := typeUnder(lit.Args[0].Type).(*types.Basic); isB && bt.Kind() == types.Uint8 {
+							one1 = lit.Args[0]
+						}
+					}
+				}
+			}
+			if one1 != nil {
+				return one(st, &Val{Op: "call", Name: "bytes.Repeat", Args: []*Val{{Op: "arraylit", Args: []*Val{one1}}, cargs[1]}, Type: fn.Signature.Results().At(0).Type()}), true
+			}
 		}
 		return one(st, e.opaqueResult(fn, name, cargs, 0)), true
 	}
@@ -1677,20 +1714,38 @@ func mergePureForks(pre *state, outs []*outcome, startID int) []*outcome {
 				ch := &Val{Op: "choice", Args: alts, Type: alts[0].Type}
 				var forks []*choiceFork
 				for _, a := range alts {
+					var f *choiceFork
 					for _, o := range b.outs {
 						if i < len(o.ret) && o.ret[i].Key() == a.Key() {
-							f := &choiceFork{}
+							var cs []Cond
 							if len(o.st.conds) > n {
-								f.Conds = append([]Cond(nil), o.st.conds[n:]...)
+								cs = append([]Cond(nil), o.st.conds[n:]...)
 							}
+							if f != nil {
+								// the same value reached another way (`if b < 0x80 || b >= 0xC0 { trim }`): only what holds
+								// on every way to it can be said of the alternative
+								var common []Cond
+								for _, c := range f.Conds {
+									for _, d := range cs {
+										if c.Taken == d.Taken && c.V.Key() == d.V.Key() {
+											common = append(common, c)
+											break
+										}
+									}
+								}
+								f.Conds = common
+								continue
+							}
+							f = &choiceFork{Conds: cs}
 							for _, ev := range o.st.events {
 								if ev.Kind == EvRep {
 									f.Loops = append(f.Loops, ev)
 								}
 							}
-							forks = append(forks, f)
-							break
 						}
+					}
+					if f != nil {
+						forks = append(forks, f)
 					}
 				}
 				if len(forks) == len(alts) {
